@@ -63,11 +63,31 @@ def GS(gs, width=None):
     return _lay(a)
 
 
+ROUTES = [True]        # objects are built through the library's own constructors as often as from raw arrays (see _route)
+
+
+def _route(vals):
+    """0: raw arrays; 1: the library's constructor (pauli / paulis from printed strings, CliffordMap.to_state for states) -- chosen by the content, so a replay takes the same route"""
+    if not ROUTES[0]:
+        return 0
+    def tot(v):
+        return sum(tot(x) for x in v) if isinstance(v, (list, tuple)) else int(v)
+    return 1 if tot(vals) % 3 == 1 else 0
+
+
+def _pstr(a):
+    return {0: '', 1: 'i', 2: '-', 3: '-i'}[int(a[1]) % 4] + ''.join('IXZY'[int(x) + 2 * int(z)] for x, z in zip(a[0][0::2], a[0][1::2]))
+
+
 def P(a):
+    if len(a[0]) >= 2 and _route(a) == 1:
+        return _reg(PA.pauli(_pstr(a)), 'P', [[int(v) for v in a[0]], int(a[1])])
     return _reg(PA.Pauli(G(a[0]), int(a[1])), 'P', [[int(v) for v in a[0]], int(a[1])])
 
 
 def PL(l, width=None):
+    if len(l) >= 1 and len(l[0][0]) >= 2 and _route(l) == 1:
+        return _reg(PA.paulis([_pstr(a) for a in l]), 'PL', [[[int(v) for v in a[0]], int(a[1])] for a in l])
     gs = GS([a[0] for a in l], width)
     ps = np.array([a[1] for a in l], dtype=I_)
     return _reg(PA.PauliList(gs, ps), 'PL', [[[int(v) for v in a[0]], int(a[1])] for a in l])
@@ -81,6 +101,16 @@ def CM(l):
 
 def STATE(t):
     rows, r = t
+    n_ = len(rows) // 2
+    if n_ >= 1 and len(rows) == 2 * n_ and _route(t) == 1:
+        m = [None] * (2 * n_)
+        m[0::2], m[1::2] = rows[n_:], rows[:n_]
+        ROUTES[0] = False
+        try:
+            st = CM(m).to_state(int(r))
+        finally:
+            ROUTES[0] = True
+        return _reg(st, 'ST', [[[[int(v) for v in a[0]], int(a[1])] for a in rows], int(r)])
     gs = GS([a[0] for a in rows])
     ps = np.array([a[1] for a in rows], dtype=I_)
     return _reg(ST.StabilizerState(gs, ps=ps).set_r(int(r)), 'ST', [[[[int(v) for v in a[0]], int(a[1])] for a in rows], int(r)])
@@ -170,6 +200,28 @@ def guard(f, name='?'):
 
 
 # ---------------------------------------------------------------- gates
+def _ctor_route(qs, gen_):
+    """a rotation gate is as often built by the library's own constructor as by hand: when the generator is non-trivial on every declared qubit (so that its support IS the
+    declared qubits, in ascending order) a third of the gates go through clifford_rotation_gate(full-width generator) and a third through
+    clifford_rotation_gate(generator, qubits); the rest set .generator directly"""
+    qs = [int(q) for q in qs]
+    g, p = gen_
+    k = len(qs)
+    if k == 0 or len(g) != 2 * k or qs != sorted(qs) or any(not (g[2 * i] or g[2 * i + 1]) for i in range(k)):
+        return None
+    route = (sum(qs) + 3 * int(p) + sum(int(b) for b in g)) % 3
+    if route == 0:
+        W = qs[-1] + 1
+        full = [0] * (2 * W)
+        for i, q in enumerate(qs):
+            full[2 * q], full[2 * q + 1] = int(g[2 * i]), int(g[2 * i + 1])
+        return CI.clifford_rotation_gate(P([full, p]))
+    if route == 1:
+        import numpy as _np
+        return CI.clifford_rotation_gate(P([list(g), p]), _np.array(qs))
+    return None
+
+
 def mk_gate(spec):
     """spec = [qubits, [0, gen]] | [qubits, [1, optfwd, optbwd]] | [qubits, [2, name]]"""
     from .core import Some
@@ -178,6 +230,9 @@ def mk_gate(spec):
     if (sum(qs) + len(qs)) % 2 == 1:
         qs = [np.int64(q) for q in qs]        # qubit labels arrive as numpy integers as often as Python ints (numpy.arange in the library's own callers)
     if k[0] == 0:
+        via = _ctor_route(qs, k[1])
+        if via is not None:
+            return via
         g = CI.CliffordGate(*qs)
         g.generator = P(k[1])
         return g
